@@ -120,11 +120,40 @@ class ClassInfo:
                         bound[x.id] = bound.get(x.id, 0) + 1
         # a constant must not be re-bound through the class or an instance anywhere in the module
         stored = set()
+        loopnames = {}        # variable -> names it ranges over, when EVERY binding of it in the module is such a for loop
+        for n in ast.walk(self.mod.tree):
+            if isinstance(n, ast.Name) and isinstance(n.ctx, (ast.Store, ast.Del)):
+                loopnames.setdefault(n.id, set())
+        for n in ast.walk(self.mod.tree):
+            if isinstance(n, ast.For) and isinstance(n.target, ast.Name) and isinstance(n.iter, (ast.List, ast.Tuple)) \
+               and all(isinstance(x, ast.Constant) and isinstance(x.value, str) for x in n.iter.elts):
+                if loopnames.get(n.target.id) is not None:
+                    loopnames[n.target.id] |= {x.value for x in n.iter.elts}
+        nbind = {}
+        for n in ast.walk(self.mod.tree):
+            if isinstance(n, ast.Name) and isinstance(n.ctx, (ast.Store, ast.Del)):
+                nbind[n.id] = nbind.get(n.id, 0) + 1
+        nfor = {}
+        for n in ast.walk(self.mod.tree):
+            if isinstance(n, ast.For) and isinstance(n.target, ast.Name) and isinstance(n.iter, (ast.List, ast.Tuple)) \
+               and all(isinstance(x, ast.Constant) and isinstance(x.value, str) for x in n.iter.elts):
+                nfor[n.target.id] = nfor.get(n.target.id, 0) + 1
+        for v in list(loopnames):
+            if nbind.get(v, 0) != nfor.get(v, 0):
+                loopnames[v] = None          # also bound some other way: unknown values
         for n in ast.walk(self.mod.tree):
             if isinstance(n, ast.Attribute) and isinstance(n.ctx, (ast.Store, ast.Del)):
                 stored.add(n.attr)
             if isinstance(n, ast.Call) and isinstance(n.func, ast.Name) and n.func.id in ("setattr", "delattr"):
-                stored.add("*")
+                # setattr(x, "name", v) / setattr(x, var, v) with var ranging over a literal list of names: those names;
+                # anything else could store any attribute
+                a1 = n.args[1] if len(n.args) >= 2 else None
+                if isinstance(a1, ast.Constant) and isinstance(a1.value, str):
+                    stored.add(a1.value)
+                elif isinstance(a1, ast.Name) and a1.id in loopnames and loopnames[a1.id] is not None:
+                    stored.update(loopnames[a1.id])
+                else:
+                    stored.add("*")
         for n in self.node.body:
             if isinstance(n, ast.Assign) and len(n.targets) == 1 and isinstance(n.targets[0], ast.Name):
                 nm = n.targets[0].id
@@ -547,7 +576,31 @@ class MFn(tr.Fn):
             un = self.unroll(s)
             if un is not None:
                 return self.block(un + list(rest), env, k)
+        if isinstance(s, ast.Expr) and isinstance(s.value, ast.Call) and self.is_logging(s.value, env):
+            self.notes.append("the logging call at line %d is not modelled (no effect on the object or the result)" % s.lineno)
+            return self.block(list(rest), env, k)
         return super().block(stmts, env, k)
+
+    def is_logging(self, c, env):
+        """`NAME.debug/info/warning/error/critical(CONSTANT…)` where NAME is bound exactly once at module level, by
+        `NAME = logging.getLogger(…)` (the logging module imported as such)"""
+        f = c.func
+        if not (isinstance(f, ast.Attribute) and isinstance(f.value, ast.Name) and f.attr in
+                ("debug", "info", "warning", "error", "critical") and f.value.id not in env and f.value.id not in self.locals):
+            return False
+        nm = f.value.id
+        binds = [n for n in ast.walk(self.mod.tree) if isinstance(n, ast.Name) and n.id == nm and isinstance(n.ctx, (ast.Store, ast.Del))]
+        top = [n for n in self.mod.tree.body if isinstance(n, ast.Assign) and len(n.targets) == 1
+               and isinstance(n.targets[0], ast.Name) and n.targets[0].id == nm]
+        if len(binds) != 1 or len(top) != 1 or not self.mod.imported("logging", "logging"):
+            return False
+        v = top[0].value
+        if not (isinstance(v, ast.Call) and isinstance(v.func, ast.Attribute) and isinstance(v.func.value, ast.Name)
+                and v.func.value.id == "logging" and v.func.attr == "getLogger"):
+            return False
+        if c.keywords or not all(isinstance(a, ast.Constant) for a in c.args):
+            self.err(c, "logging call with non-constant arguments (evaluating them could raise) is not in the subset")
+        return True
 
     def if_stmt(self, s, rest, env, k):
         saved_pre, saved_notes = list(self.pre), len(self.notes)
@@ -565,7 +618,21 @@ class MFn(tr.Fn):
             return super().if_stmt(s, rest, env, k)
         self.nomonad += 1
         try:
-            return super().if_stmt(s, rest, env, k)
+            # Fn.if_stmt does not translate the branches of an `if` that assigns nothing; translate them here once, for
+            # validation only (a statement outside the subset must be refused, not dropped)
+            keep = (list(self.pre), self.cur_env, self.rettype)
+            for br in (s.body, s.orelse):
+                self.block(list(br), dict(env), lambda e2: "")
+            self.pre, self.cur_env, self.rettype = keep
+            depth = self.nomonad - 1
+            def k2(e2):
+                # the statements after the `if` are outside it again
+                inner, self.nomonad = self.nomonad, depth
+                try:
+                    return self.block(list(rest), e2, k)
+                finally:
+                    self.nomonad = inner
+            return super().if_stmt(s, [], env, k2)
         finally:
             self.nomonad -= 1
 
